@@ -389,12 +389,19 @@ func (fg *FunctionGenerator) FromList(items []Value) Value {
 }
 
 func (fg *FunctionGenerator) AccessList(list Value, index Value) (Value, error) {
+	return fg.AccessListSt(funcGen.NewEmptyStack[Value](), list, index)
+}
+
+// AccessListSt is AccessList with the stack of the running evaluation. A lazy
+// list is evaluated on a stack of its own which continues the depth count of st,
+// see funcGen.NewEmptyStackBelow.
+func (fg *FunctionGenerator) AccessListSt(st funcGen.Stack[Value], list Value, index Value) (Value, error) {
 	if l, ok := list.ToList(); ok {
 		if i, ok := index.(Int); ok {
 			if i < 0 {
 				return nil, fmt.Errorf("negative list index")
 			} else {
-				size, err := l.Size(funcGen.NewEmptyStack[Value]())
+				size, err := l.Size(funcGen.NewEmptyStackBelow(st))
 				if err != nil {
 					return nil, err
 				}
